@@ -688,7 +688,12 @@ def g_FresnelPropagator(rng):
 
 
 def g_FraunhoferPropagator(rng):
-    return _optics_grid(pad=False)
+    out = _optics_grid(pad=False)
+    # parameters for which a float-step range over the destination plane has N + 1 samples (rounding)
+    for shape, dx, k0, z in [([17], 0.7, 3.0, 0.1), ([13], 0.1, 1.0, 2.0), ([3], 1.3, 7.71, 1.0), ([3, 13], [1.3, 0.1], 7.71, 1.0), ([5, 3], [0.5, 1.3], 7.71, 1.0)]:
+        out.append({"shape": shape, "dx": dx, "k0": k0, "z": z})
+    out[-5]["must"] = True
+    return out
 
 
 def g_AbelTransform(rng):
